@@ -259,6 +259,22 @@ def run_B(s):
             r = float((np.float64(num) - np.float64(den)) / np.float64(den))
         if neq(float(mri_s.loc[t]), r):
             viol.append({"key": "mri:system", "what": "system MRI[%d] = %r, formula %r" % (t, float(mri_s.loc[t]), r)})
+    # ---- the tables are label-indexed: the same inputs with their columns / index in ANOTHER order give the same numbers
+    rot = lambda L, k: list(L[k:]) + list(L[:k])
+    try:
+        mri_p = wntr.metrics.modified_resilience_index(pj[rot(juncs, 1)], el[juncs[::-1]], Pstar)
+        mri_sp = wntr.metrics.modified_resilience_index(pj[rot(juncs, 1)], el[juncs[::-1]], Pstar, dj[rot(juncs, 2)], per_junction=False)
+        tod_p = wntr.metrics.todini_index(head[rot(nodes, 2)], pres[nodes[::-1]], dem[rot(nodes, 1)], flow[[p[0] for p in pumps][::-1]] if pumps else flow, wn, Pstar)
+        for t in T:
+            cnt("label_order")
+            if any(neq(float(mri_p.loc[t, j]), float(mri.loc[t, j])) for j in juncs):
+                viol.append({"key": "label-order:mri:per-junction", "what": "MRI changes when the pressure columns / elevation index are given in another order (t=%d)" % t}); break
+            if neq(float(mri_sp.loc[t]), float(mri_s.loc[t])):
+                viol.append({"key": "label-order:mri:system", "what": "system MRI[%d] = %r with reordered columns, %r in model order" % (t, float(mri_sp.loc[t]), float(mri_s.loc[t]))}); break
+            if neq(float(tod_p.loc[t]), float(tod.loc[t]), 1e-9):
+                viol.append({"key": "label-order:todini", "what": "todini[%d] = %r with reordered columns, %r in model order" % (t, float(tod_p.loc[t]), float(tod.loc[t]))}); break
+    except Exception as e:  # noqa
+        viol.append({"key": "label-order:raises:%s" % type(e).__name__, "what": "metrics on reordered tables raised %s: %s" % (type(e).__name__, str(e)[:120])})
     # ---- tank capacity
     lv = pd.DataFrame({"T1": [abs(cell(a, t, 0, 5)) % 6.0 for t in range(3)], "T2": [abs(cell(a, t, 1, 5)) % 6.0 for t in range(3)]}, index=T)
     tc = wntr.metrics.tank_capacity(lv, wn)
